@@ -33,6 +33,7 @@ type opDesc struct {
 	What   string  `json:"what"`   // Break: pad2 | extfail | badbinder | emptypsk | shortrandom; InPlace: alpn | generic | groups | versions | sid
 	B      int     `json:"b"`      // InPlace: the new value of the edited element ...
 	B2     int     `json:"b2"`     // ... or this one if it already has that value
+	Share  string  `json:"share"`  // BBuild: spec (the very ClientHelloSpec value of this connection) | slices (a spec sharing its slices)
 }
 
 type scn struct {
@@ -186,6 +187,71 @@ func (failingExt) Read(b []byte) (int, error) {
 	return 0, errors.New("verif extension: refuses to be serialised")
 }
 
+// sibling returns a second spec of the same shape whose cipher-suite list and whose curves / ALPN / versions lists are
+// the very slices of s (two specs built from one set of lists).
+func sibling(s *tls.ClientHelloSpec) *tls.ClientHelloSpec {
+	n := customSpec()
+	n.CipherSuites = s.CipherSuites
+	for i, e := range n.Extensions {
+		if i >= len(s.Extensions) {
+			break
+		}
+		switch x := e.(type) {
+		case *tls.SupportedCurvesExtension:
+			if y, ok := s.Extensions[i].(*tls.SupportedCurvesExtension); ok {
+				x.Curves = y.Curves
+			}
+		case *tls.ALPNExtension:
+			if y, ok := s.Extensions[i].(*tls.ALPNExtension); ok {
+				x.AlpnProtocols = y.AlpnProtocols
+			}
+		case *tls.SupportedVersionsExtension:
+			if y, ok := s.Extensions[i].(*tls.SupportedVersionsExtension); ok {
+				x.Versions = y.Versions
+			}
+		}
+	}
+	return n
+}
+
+// otherOp acts on a second connection B that lives next to the connection under test.
+func otherOp(b **tls.UConn, o *opDesc, spec *tls.ClientHelloSpec, pk *hlib.PKI) (map[string]any, error) {
+	obs := map[string]any{}
+	if spec == nil {
+		return obs, fmt.Errorf("harness: second connection without a spec to share")
+	}
+	mk := func(share string) error {
+		c, _ := hlib.BufPipe()
+		u := tls.UClient(c, &tls.Config{ServerName: "example.com", RootCAs: pk.Pool, OmitEmptyPsk: true}, tls.HelloCustom)
+		sp := spec
+		if share == "slices" {
+			sp = sibling(spec)
+		}
+		if err := u.ApplyPreset(sp); err != nil {
+			return err
+		}
+		*b = u
+		return u.BuildHandshakeState()
+	}
+	switch o.Op {
+	case "BBuild":
+		return obs, mk(o.Share)
+	case "BPoke":
+		if *b == nil {
+			if err := mk("spec"); err != nil {
+				return obs, err
+			}
+		}
+		h := (*b).HandshakeState.Hello
+		obs["bbefore"] = hlib.U16s(h.CipherSuites)
+		if len(h.CipherSuites) >= 2 {
+			h.CipherSuites[1] = uint16(o.V)
+		}
+		obs["bafter"] = hlib.U16s(h.CipherSuites)
+	}
+	return obs, nil
+}
+
 // applyOp performs one public call / documented edit and returns what it observed.
 func applyOp(u *tls.UConn, o *opDesc, specFn func() (*tls.ClientHelloSpec, error)) (obs map[string]any, err error) {
 	obs = map[string]any{}
@@ -302,6 +368,12 @@ func applyOp(u *tls.UConn, o *opDesc, specFn func() (*tls.ClientHelloSpec, error
 			if n := len(h.CipherSuites); n > 0 {
 				h.CipherSuites = append([]uint16{}, h.CipherSuites[:n-1]...)
 			}
+		case "keep":
+			// the caller only looks at the list
+		case "poke":
+			if len(h.CipherSuites) >= 2 {
+				h.CipherSuites[1] = uint16(o.V)
+			}
 		default:
 			return obs, fmt.Errorf("harness: unknown EditSuites kind %q", o.Kind)
 		}
@@ -395,7 +467,23 @@ const maxRecs = 8
 func runScn(s scn, rawScn json.RawMessage, pk *hlib.PKI, certs []tls.Certificate, out *[]map[string]any) {
 	var emu sync.Mutex
 	emit := func(m map[string]any) { emu.Lock(); m["sc"] = s.Sc; *out = append(*out, m); emu.Unlock() }
-	id, specFn, err := resolveID(&s)
+	id, specFn0, err := resolveID(&s)
+	// the spec the caller applies is one value for the whole scenario: a second connection may be given the same one
+	var theSpec *tls.ClientHelloSpec
+	var specFn func() (*tls.ClientHelloSpec, error)
+	if specFn0 != nil {
+		specFn = func() (*tls.ClientHelloSpec, error) {
+			if theSpec != nil {
+				return theSpec, nil
+			}
+			sp, err := specFn0()
+			if err == nil {
+				theSpec = sp
+			}
+			return sp, err
+		}
+	}
+	var other *tls.UConn
 	if err != nil {
 		emit(map[string]any{"ev": "Error", "err": err.Error()})
 		return
@@ -507,7 +595,11 @@ func runScn(s scn, rawScn json.RawMessage, pk *hlib.PKI, certs []tls.Certificate
 							pan = fmt.Sprint(p)
 						}
 					}()
-					obs, cerr = applyOp(u, o, specFn)
+					if o.Op == "BBuild" || o.Op == "BPoke" {
+						obs, cerr = otherOp(&other, o, theSpec, pk)
+					} else {
+						obs, cerr = applyOp(u, o, specFn)
+					}
 				}()
 				if obs == nil {
 					obs = map[string]any{}
